@@ -401,6 +401,13 @@ def run_case(seed, root, params=None):
                                     'hist': hc, 'fault': None})
             stats['census_events'] = stats.get('census_events', 0) + \
                 len(events)
+            if victim == 'reconfigure':
+                # A re-configure with *other* arguments that fails may or may
+                # not have recorded the new configuration yet; which of the
+                # two configurations later runs are "about" is not something
+                # the property fixes.  Only the fault-free run is judged
+                # (above); no faults are injected into it.
+                events = []
             n = params.get('points_per_scenario')
             all_coords = coordinates(events, rng, None)
             key = 'scenarios_exhaustive' if (n is None or
